@@ -36,6 +36,7 @@ func (e *Exec) callValue(s *State, f *Frame, in ssa.Value, fnv Value, args []Val
 	}
 	if s.pure == 0 {
 		if fv, ok := fnv.(*FuncV); !ok || !(fv.Name == "builtin:len" || fv.Name == "builtin:cap") {
+			s.prevMapEpoch = s.mapEpoch
 			s.mapEpoch = e.nextEpoch() // the callee may mutate any map
 		}
 	}
@@ -183,6 +184,10 @@ func (e *Exec) atCallAsserts(s *State, f *Frame, full, name string, args []Value
 		return
 	}
 	n := e.counter("call", key)
+	// call-site assertions speak about the state BEFORE the call: maps are as they were
+	curEpoch := s.mapEpoch
+	s.mapEpoch = s.prevMapEpoch
+	defer func() { s.mapEpoch = curEpoch }()
 	for i, ac := range topc.AtCalls {
 		if ac.Expr.Expr == nil {
 			continue
